@@ -253,6 +253,13 @@ def gen_train_case(g):
             flow.add_feedback(g, c["res"], o)
             c["fb"] = True
             c["force_teachers"] = False      # forced feedback restarts from zero at every call, by definition: excluded by the property
+        elif g.chance(0.5):
+            # "feedback in time": res1 >> readout1 >> res2 >> readout2 with res2 <<= readout1 - the online sender is evaluated
+            # BEFORE its receiver at every step, which still hears the sender's output of the previous step
+            c["res2"] = flow.gen_node(g, "reservoir", o)
+            flow.add_feedback(g, c["res2"], o)
+            c["fb_up"] = True
+            c["force_teachers"] = False
     return c
 
 
@@ -276,24 +283,32 @@ def check_train(ctx, c):
             res = flow.make_node(c["res"], flow.fresh("t"))
             if c.get("fb"):
                 res <<= ro
-            return res >> ro, ro
-        return ro, ro
+            if c.get("fb_up"):
+                res2 = flow.make_node(c["res2"], flow.fresh("t"))
+                ro2 = make_trainable(c)
+                res2 <<= ro
+                return res >> ro >> res2 >> ro2, ro2, (ro, ro2)
+            return res >> ro, ro, None
+        return ro, ro, None
     kw = {"learn_every": c["learn_every"]}
-    if c.get("fb"):
+    if c.get("fb") or c.get("fb_up"):
         kw["force_teachers"] = c["force_teachers"]
+
+    def tgt(pair, Ys):
+        return Ys if pair is None else {pair[0].name: Ys, pair[1].name: Ys}
     try:
-        ma, ra = build()
-        mb, rb = build()
-        ma.train(X, Y, **kw)
+        ma, ra, pa = build()
+        mb, rb, pb = build()
+        ma.train(X, tgt(pa, Y), **kw)
         pos = 0
         for n in c["pieces"]:
-            mb.train(X[pos:pos + n], Y[pos:pos + n], **kw)
+            mb.train(X[pos:pos + n], tgt(pb, Y[pos:pos + n]), **kw)
             pos += n
     except Exception as e:  # noqa
         ctx.violation(f"online training raised {type(e).__name__}: {e}", c, obligation=ob)
         return
     ctx.count(c, nontrivial=len(c["pieces"]) >= 2, obligation=ob)
-    ctx.stat(f"train rule={c['rule']} k={c['learn_every']} in_model={c['in_model']} fb={c.get('fb', False)} forced={c.get('force_teachers')}")
+    ctx.stat(f"train rule={c['rule']} k={c['learn_every']} in_model={c['in_model']} fb={c.get('fb', False)} fb_up={c.get('fb_up', False)} forced={c.get('force_teachers')}")
     ctx.sample({k: c[k] for k in ("rule", "in_model", "learn_every", "T", "pieces", "bias")})
     for name in ("Wout", "bias") + (("P",) if "rls" in c["rule"] else ()):
         va, vb = np.asarray(getattr(ra, name), dtype=float), np.asarray(getattr(rb, name), dtype=float)
